@@ -63,6 +63,11 @@ def generate(rng, tier):
     cases = [gen_case(rng, m, tier) for _ in range(reps) for m in ALL_KINDS + IMG_ONLY]
     # edge of the valid range, for every method that accepts non-image data: one feature, one time step
     cases += [gen_case(rng, m, tier, force=f) for m in ALL_KINDS for f in ("tab", "ts")]
+    # Rise grids that do not fit the input size (L mod g > L // g): the up-sampled mask must still cover the input
+    for (h, w, g) in ((7, 5, 4), (5, 8, 3), (7, 3, 4), (11, 7, 4)):
+        c = gen_case(rng, "Rise", tier)
+        c.update(kind="img", shape=[h, w, rng.choice([1, 3])], rise_grid=g)
+        cases.append(c)
     return cases
 
 
@@ -94,7 +99,7 @@ def build_model(kind, shape, seed):
     return m
 
 
-def make_explainer(method, model, kind, shape):
+def make_explainer(method, model, kind, shape, rise_grid=None):
     import xplique.attributions as A
     kw = dict(Saliency={}, GradientInput={}, IntegratedGradients=dict(steps=3), SmoothGrad=dict(nb_samples=3, noise=0.1),
               SquareGrad=dict(nb_samples=3, noise=0.1), VarGrad=dict(nb_samples=3, noise=0.1), DeconvNet={}, GuidedBackprop={},
@@ -105,7 +110,7 @@ def make_explainer(method, model, kind, shape):
         kw = dict(nb_samples=5, grid_size=1)
     elif method == "Rise":
         # grids that do not fit the input size (L mod g > L // g happens for g = 3, 4 on sizes 5, 7 ...)
-        kw = dict(nb_samples=5, grid_size=[2, 3, 4][(shape[0] + shape[1]) % 3])
+        kw = dict(nb_samples=5, grid_size=rise_grid or [2, 3, 4][(shape[0] + shape[1]) % 3])
     return getattr(A, method)(model, batch_size=3, **kw)
 
 
@@ -162,13 +167,13 @@ def run_impl(case):
         tf.config.run_functions_eagerly(True)
     out = {}
     try:
-        expl = make_explainer(method, model, case["kind"], shape)
+        expl = make_explainer(method, model, case["kind"], shape, case.get("rise_grid"))
         for c in case["containers"] + (["ds_prefetch"] if case["probe_prefetch"] else []):
             try:
                 if c == "ds_prefetch":
                     # the probe of the known finding hands a wrongly shaped tensor to the explainer (the batch axis is not
                     # removed), which may fix lazily-set parameters for another input kind: use an explainer of its own
-                    probe = make_explainer(method, model, case["kind"], shape)
+                    probe = make_explainer(method, model, case["kind"], shape, case.get("rise_grid"))
                     xi, ti = container(c, x, t)
                     seeded(case["seed"])
                     e = probe.explain(xi, ti)
